@@ -524,9 +524,9 @@ def ref_op(call, ins, t):
     if op == FILTER:
         return [x for x in a if PFUN[call[2]](x)]
     if op == MAPVALUES:
-        return [(k, EFUN[call[2]](v)) for k, v in a]
+        return [(e[0], EFUN[call[2]](e[1])) for e in a]        # RDD.mapValues indexes the record, extra fields are dropped
     if op == FLATMAPVALUES:
-        return [(k, y) for k, v in a for y in GFUN[call[2]](v)]
+        return [(e[0], y) for e in a for y in GFUN[call[2]](e[1])]
     if op == REDUCEBYKEY:
         return [(k, functools.reduce(OPFUN[call[2]], vs)) for k, vs in _group(a).items()]
     if op == GROUPBYKEY:
@@ -734,10 +734,15 @@ I, S, KI, KL, KT, KC = 'I', 'S', 'KI', 'KL', 'KT', 'KC'
 # values that are not mutually orderable (None among numbers, strings mixed with ints, tuples mixed with scalars):
 # M = such elements, KM = (int key, such a value), X = whatever comes out of them (generic operations only)
 M, KM, X = 'M', 'KM', 'X'
+# K3: pair-like records of other shapes: (k, v, extra...) tuples, [k, v, extra] lists, [k, v] lists
+K3 = 'K3'
 MIXED = [None, 1, 2, 3, 'a', 'b', (1, 2), None, 1, 'a']
 
 
 def _elem(rng, ty):
+    if ty == K3:
+        k, v, x = rng.randint(0, 2), rng.randint(-3, 9), rng.choice([0, 7, 'x', None])
+        return rng.choice([(k, v, x), [k, v, x], [k, v], (k, v, x, x), (k, v)])
     if ty == M:
         return rng.choice(MIXED)
     if ty == KM:
@@ -776,6 +781,12 @@ def _unary_choices(ty):
         for f in (2, 3, 4, 5, 7, 8, 11):
             out.append(((TRANSFORM, f), I))
         out.append(((MAPPARTITIONS, 1), I))
+    if ty == K3:
+        for f in (1, 2, 3):
+            out += [((MAPVALUES, f), KI), ((MAPVALUES, f), KI)]
+        for f in (0, 1, 2):
+            out += [((FLATMAPVALUES, f), KI), ((FLATMAPVALUES, f), KI)]
+        out += [((MAP, 6), I), ((FILTER, 4), K3), ((MAPVALUES, 0), X)]
     if ty == M:
         out += [((COUNTBYVALUE,), X), ((COUNTBYVALUE,), X), ((FLATMAP, 0), M)]
     if ty == KM:
@@ -828,7 +839,7 @@ def _queue_batches(rng, ty, one):
 def _big_batch(rng, ty):
     """A batch for an RDD with several partitions: a key's values span partitions."""
     n = rng.randint(3, 7)
-    if ty in (M, KM):
+    if ty in (M, KM, K3):
         return [_elem(rng, ty) for _ in range(n)]
     if ty == I:
         return [rng.randint(-3, 9) for _ in range(n)]
@@ -865,7 +876,7 @@ def _add_source(rng, prog, types, depth, with_files, first):
         prog.append('FILE')
         types.append(S)
     else:
-        ty = rng.choice([I, I, I, KI, KI, M, KM])
+        ty = rng.choice([I, I, I, KI, KI, M, KM, K3])
         one = rng.random() < 0.75
         default = None if rng.random() < 0.5 else ([] if rng.random() < 0.2 else _batch(rng, ty))
         bs = _queue_batches(rng, ty, one)
@@ -1126,6 +1137,16 @@ def systematic_kinds():
             cases.append(([sm, (UNION, 0, 0), (REPARTITION, 1, 2), (COUNTBYVALUE, 2), (FILTER, 0, 0), (FOREACH, 3), (FOREACH, 4)], h4))
             skm = (QUEUE, [list(b) for b in kmixed], one, None, ([k if one else 0] * 3, 0, (K_LIST, [K_LIST] * 3, K_LIST, 0)))
             cases.append(([skm, (GROUPBYKEY, 0), (MAP, 0, 6), (COUNTBYVALUE, 2), (COUNT, 1), (FOREACH, 1), (FOREACH, 3), (FOREACH, 4)], h4))
+    # records of other shapes reaching the pair operations that index the record (mapValues, flatMapValues)
+    k3 = [[(0, 1, 'x'), [1, 2, 9], [0, 3], (1, 5)], [], [(2, 4, 5, 6), [2, 0, None]]]
+    for one in (True, False):
+        for k in (0, 2):
+            s3 = (QUEUE, [list(b) for b in k3], one, None, ([k if one else 0] * 3, 0, (K_LIST, [K_LIST] * 3, K_LIST, 0)))
+            for sp in [(MAPVALUES, 1), (MAPVALUES, 0), (FLATMAPVALUES, 0), (FLATMAPVALUES, 1)]:
+                cases.append(([s3, _mk(sp, 0), (COUNT, 1), (FOREACH, 1), (FOREACH, 2), (FOREACH, 0)], h4))
+                cases.append(([s3, (FILTER, 0, 4), _mk(sp, 1), (UNION, 2, 2), (FOREACH, 3)], h4))
+                cases.append(([s3, (FOREACH, 0), _mk(sp, 0), (FOREACH, 2)], [(2,), (1, []), (2,), (2, []), (3, []), (4, [])]))
+            cases.append(([s3, (MAPVALUES, 0, 2), (REDUCEBYKEY, 1, 3), (GROUPBYKEY, 1), (FOREACH, 2), (FOREACH, 3)], h4))
     si0 = (QUEUE, [[1, 2, 2], [], [4]], True, [5, 6])
     for f in (0, 1, 2, 3, 4, 5, 7, 8, 9, 10, 11):
         for sig in range(6):
